@@ -9,7 +9,7 @@ from .. import gen, impl, oracle, progs, ser, stream
 
 ID = "C14"
 LEVEL = "proof"
-PROPS_MODULE = "SymmModel.Props.C14"
+PROPS_MODULE = "SymmModel.Props.C14All"
 THEOREMS = [
     "SymmModel.C14.op_safe",
     "SymmModel.C14.op_step",
@@ -38,10 +38,43 @@ THEOREMS = [
     "SymmModel.Heap.runAct_refines",
     "SymmModel.Heap.script_refines",
     "SymmModel.Heap.script_refines_others",
-    "SymmModel.Heap.copyWithArr_refines"
+    "SymmModel.Heap.copyWithArr_refines",
+    "SymmModel.C14.inplace_same_value_binaryA",
+    "SymmModel.C14.inplace_same_value_binaryA_self",
+    "SymmModel.C14.inplace_same_value_binaryF",
+    "SymmModel.C14.inplace_same_value_binaryF_self",
+    "SymmModel.C14.binaryF_self_pending_bufs_differ",
+    "SymmModel.C14.binaryF_self_pending_same_provenance",
+    "SymmModel.C14.inplace_same_value_align",
+    "SymmModel.C14.align_inplace_self",
+    "SymmModel.C14.align_self_loses_first_result",
+    "SymmModel.C14.other_operand_untouched",
+    "SymmModel.C14.binary_other_untouched",
+    "SymmModel.C14.op_spec_ok",
+    "SymmModel.C14.op2_spec_ok",
+    "SymmModel.C14.op2_frame_all",
+    "SymmModel.C14.op2_frame",
+    "SymmModel.C14.op2_result_objects_new",
+    "SymmModel.C14.op2_no_shared_dict",
+    "SymmModel.C14.gprog_frame_all",
+    "SymmModel.C14.result_mutation_safe2",
+    "SymmModel.C14.copy_with_caller_blocks_aliases",
+    "SymmModel.C14.copy_with_caller_phases_aliases",
+    "SymmModel.Heap.binaryK_refines",
+    "SymmModel.Heap.syncedK_refines",
+    "SymmModel.Heap.muts_refines",
+    "SymmModel.Heap.script_refines2",
+    "SymmModel.Heap.bodyF_refines",
+    "SymmModel.Heap.spec_step",
+    "SymmModel.Heap.gcall_inv",
+    "SymmModel.Heap.gcalls_inv",
+    "SymmModel.Heap.op2_ok",
+    "SymmModel.Heap.binaryA_runs",
+    "SymmModel.Heap.binaryF_runs",
+    "SymmModel.Heap.align_runs"
 ]
-LEAN_FILES = ["SymmModel.Model.Heap", "SymmModel.Proofs.HeapLemmas", "SymmModel.Proofs.HeapRefine", "SymmModel.Props.C14", "SymmModel.Driver.HeapH"]
-PLANNED = ["inplace_same_value for __iadd__/__isub__/__imul__/__itruediv__ with a block array and drop_misaligned_sectors(inplace=True)"]
+LEAN_FILES = ["SymmModel.Model.Heap", "SymmModel.Proofs.HeapLemmas", "SymmModel.Proofs.HeapRefine", "SymmModel.Props.C14", "SymmModel.Driver.HeapH", "SymmModel.Model.Heap2", "SymmModel.Proofs.Heap2Binary", "SymmModel.Proofs.Heap2Inplace", "SymmModel.Proofs.Heap2Lemmas", "SymmModel.Props.C14b", "SymmModel.Props.C14All", "SymmModel.Driver.Heap2H"]
+PLANNED = ["inplace_same_value (modulo buffer provenance) for fermionic x op= x with pending signs: general simulation proof (concrete instance proved, real code compared by the harness)"]
 RULE = ("random programs (length <= 4) over abelian and fermionic arrays incl. decompositions; deep snapshots "
         "(block bytes, dict orders, index tables, charge, pending signs, labels) of every live value before and after "
         "each step; afterwards every result is mutated through all in-place methods and dict writes and the operands "
